@@ -55,6 +55,13 @@ def _validate(vtype, val, name):
         itype = vtype.__args__[0]
         if itype != func_xltypes.XlArray:
             val = flatten(val)
+        # An error among the items of a list of scalars is the result. (Lists
+        # of criteria ranges, typed as a union with arrays, keep their items.)
+        if (itype in TYPE_TO_CAST
+                or getattr(itype, '__origin__', None) != typing.Union):
+            for item in val:
+                if isinstance(item, xlerrors.ExcelError):
+                    raise item
         return tuple(filter(
             lambda x: x is not None,
             [_safe_validate(itype, item, name) for item in val]
